@@ -165,6 +165,9 @@ def loop_shape_texts():
                     j = body.rindex(", ")
                     out.append(H + "Foo(%s) | 0\n" % (body[:j] + " " + body[j + 2:]))
                     out.append(H + "Foo(%s) | 0\n" % (body[:j] + ", , " + body[j + 2:]))
+    for hdr in ["2:6", "2:6:2", "2:6.0", "0:q1", "0:10:0.5", "2:n", "2::3", "2:\"a\"", "0:True", "0:3:pi", "1:2j", "0:4:q0", "2.0:6", "0:3:", "0:(3)", "0:-3"]:
+        out.append(H + "for int i in %s\n    Foo | i\n" % hdr)
+        out.append(H + "int n = 3\nfor int i in %s\n    Foo | i\nVac | 0\n" % hdr)
     for n in range(4):
         items = ", ".join(str(k) for k in range(n))
         nocomma = " ".join(str(k) for k in range(n))
